@@ -118,6 +118,18 @@ PROPS = {
   "note": TB + "on_stream/via_stream/delay/adapt variants are not in the model. reduce_stream has sends_done=false: after a stop the root is the partial fold as a value (stated as such).",
   "design_ref": "5/C13",
  },
+ "C14": {
+  "claimed": True, "drivers": [],
+  "technique": "Coq proofs: RemoteQueue (hand-written invariants, parametric producers/items/stoppers), IoCancel and UringOp (reachable-set closure certificates over a finite core for every parameter value, all stopper counts) + K1 lock-step with the real io_epoll_context on real pipes/eventfds through logging syscall pass-throughs; io_uring by real-thread monitors",
+  "text": ("PARTIAL (kernel behaviour is assumed as modelled). Theorems for ALL schedules: remote work is never lost (blocked loop implies empty queue or a producer about to signal), each item runs exactly once "
+           "in order on the I/O thread, run() returns only after stop and after everything enqueued before; one epoll read/write completes at most once, completes unless legitimately parked, with "
+           "value iff the transfer happened / the OS error / done iff stopped without transfer, leaves no kernel registration, queued item or live callback at completion, and nothing touches it "
+           "afterwards (six refuted theorems document the code before the three epoll fixes); the io_uring operation's election, single callback registration and clean completion. "
+           "Tie: lock-step on the real epoll context (RemoteQueue 14k schedules, IoCancel 27k) with the kernel-side registration set visible in the trace; byte streams intact and fd counts equal "
+           "for buffer sizes below/at/above pipe capacity; io_uring: real-thread runs with monitors (no schedule control)."),
+  "note": TB + "Kernel (epoll, eventfd, io_uring, pipes) assumed as modelled. Two io_uring findings are known findings (pre-stopped operation not cancelled; transferred bytes reported as done). Timers of these contexts use the kernel clock and are not covered (C07).",
+  "design_ref": "5/C14",
+ },
  "C15": {
   "claimed": True, "drivers": [],
   "technique": "Coq proof (inductive invariants over all numbers of lockers and all schedules; v1 at pointer level over atomic_intrusive_queue, v2 over a two-phase abstract waiter list + cancellable bits + Dekker guard) + K1 lock-step with the real v1/v2 async_mutex",
@@ -201,6 +213,17 @@ PROPS = {
            "and every stop block."),
   "note": TB + "Modelled, not verified: iterator arithmetic as Z offsets (diff_t overflow outside the model); visit order on a multi-threaded pool is not compared (result and range containment only).",
   "design_ref": "5/C17",
+ },
+ "C20": {
+  "claimed": True, "category": "translation_validation", "drivers": [],
+  "technique": "translation validation: the K2 programs compiled in 8 build configurations against the ONE Calc model trace; Coq proof of the AsyncStack bracket discipline (balance, roots restored, parent chain) tied to frame/root snapshots of debug builds",
+  "text": ("First half (translation validation, inherently sampled): generated sender expressions x scripts compiled as {C++17,C++20} x {NDEBUG, debug+async stacks} x {continuation visitation 0,1}; every "
+           "configuration's trace equals the one trace of the extracted Calc model, hence each other. Second half (proof): for ALL operation trees, families of traced runs and schedules the "
+           "async-stack discipline of inject_async_stack/sync_wait never trips an assertion, every activated frame is deactivated, every thread's root is restored at quiescence, and the parent "
+           "chain from a started operation's frame is exactly its path to the root (the async_trace claim); tie: snapshots of tryGetCurrentAsyncStackRoot()/frame chains in the four debug "
+           "configurations replayed on the model, async_trace checked against the expression's nesting. The coroutine path (task/connect_awaitable/await_transform) is monitored only."),
+  "note": TB + "The cross-configuration claim is a finite sample by nature. A pending operation's frame can keep the stackRoot of a destroyed root (refuted theorem, observed on the real code; not a property violation).",
+  "design_ref": "5/C20",
  },
 }
 NOT_YET = {
